@@ -61,11 +61,95 @@ fn respond(line: &str) -> String {
             },
             _ => "bad-op".into(),
         },
+        ["dofiles", p] => match dec(p) {
+            Some(p) => {
+                let p = path(&p);
+                if !p.is_absolute() {
+                    return "bad-op".into();
+                }
+                // `possible_do_files` aborts (Option::unwrap) on a path without a final component.
+                let r = std::panic::catch_unwind(|| {
+                    redo::possible_do_files(&p)
+                        .map(|df| {
+                            let mut a1 = df.verif_base_name().as_os_str().to_os_string();
+                            a1.push(df.verif_ext());
+                            let a2 = df.verif_base_name().as_os_str().to_os_string();
+                            let mut tmp = a1.clone();
+                            tmp.push(".redo.tmp");
+                            let tmp_name = df.do_dir().join(tmp);
+                            let a3 = redo::relpath(&tmp_name, df.do_dir())
+                                .map(|r| pb(&r))
+                                .unwrap_or_else(|_| "err".into());
+                            [
+                                pb(df.do_dir()),
+                                enc(df.do_file().as_bytes()),
+                                pb(df.verif_base_dir()),
+                                pb(df.verif_base_name()),
+                                enc(df.verif_ext().as_bytes()),
+                                enc(a1.as_bytes()),
+                                enc(a2.as_bytes()),
+                                a3,
+                            ]
+                            .join("|")
+                        })
+                        .collect::<Vec<String>>()
+                        .join(",")
+                });
+                match r {
+                    Ok(s) => s,
+                    Err(_) => "none".into(),
+                }
+            }
+            None => "bad-op".into(),
+        },
+        ["meta-parse", l] => match dec(l).and_then(|b| String::from_utf8(b).ok()) {
+            Some(l) => match redo::logs::Meta::parse(&l) {
+                Ok(m) => {
+                    // the timestamp is echoed in the canonical {:.4} rendering
+                    format!(
+                        "ok {} {} {} {}",
+                        enc(m.kind().as_bytes()),
+                        enc(m.pid().as_raw().to_string().as_bytes()),
+                        enc(format!("{:.4}", m.timestamp()).as_bytes()),
+                        enc(m.text().as_bytes())
+                    )
+                }
+                Err(_) => "err".into(),
+            },
+            None => "bad-op".into(),
+        },
+        ["meta-format", k, p, t, x] => {
+            let f = |s: &str| dec(s).and_then(|b| String::from_utf8(b).ok());
+            match (f(k), f(p), f(t), f(x)) {
+                (Some(k), Some(p), Some(t), Some(x)) => {
+                    match (p.parse::<i32>(), t.parse::<f64>()) {
+                        (Ok(p), Ok(t)) => {
+                            let m = redo::logs::Meta::verif_new(&k, p, t, &x);
+                            enc(format!("{}", m).as_bytes())
+                        }
+                        _ => "bad-op".into(),
+                    }
+                }
+                _ => "bad-op".into(),
+            }
+        }
+        ["done-text", x] => match dec(x).and_then(|b| String::from_utf8(b).ok()) {
+            Some(x) => match redo::verif::parse_done_text(&x) {
+                Some((rv, n)) => format!("some {} {}", enc(rv.to_string().as_bytes()), enc(n.as_bytes())),
+                None => "none".into(),
+            },
+            None => "bad-op".into(),
+        },
+        ["valid-line", x] => match dec(x).and_then(|b| String::from_utf8(b).ok()) {
+            Some(x) => redo::verif::is_valid_log_line(&x).to_string(),
+            None => "bad-op".into(),
+        },
         _ => "bad-op".into(),
     }
 }
 
 fn main() {
+    std::panic::set_hook(Box::new(|_| {}));
     let stdin = io::stdin();
     let stdout = io::stdout();
     let mut out = io::BufWriter::new(stdout.lock());
